@@ -12,10 +12,12 @@ func init() {
 		Explain: otherNote + "C05: decided = both IDs are aligned to the per-axis minimum zoom with integrate.ChangeExtendedSpatialIdsZoom itself; the array form is the disjunction of the pair form; every element of both lists is inserted/queried; the tree is never queried when empty; both halves of the altitude-key range are consumed (known finding D8); malformed IDs fail.",
 		Canary:  []CanaryExpect{{Rule: "RANGEUSE", Bad: "canaryBadDropMax", Good: "canaryGoodBothBounds"}}})
 	register(&propSpec{ID: "C06", Level: "other", Run: runC06,
-		Explain: otherNote + "C06: decided = result de-duplicated on every success path; the end-point voxels are part of every returned list; single-voxel short cut; every midpoint voxel is reported and looked up at the requested zooms; spatial form = extended form with h = v. Gap-freeness and 'only voxels the segment touches' are NOT decided."})
+		Explain: otherNote + "C06: decided = result de-duplicated on every success path; the end-point voxels are part of every returned list; single-voxel short cut; every midpoint voxel is reported and looked up at the requested zooms; spatial form = extended form with h = v. Gap-freeness and 'only voxels the segment touches' are NOT decided.",
+		Canary:  []CanaryExpect{{Rule: "KIND-LAYOUT", Bad: "canaryBadFloatText", Good: "canaryGoodIntText"}}})
 	register(&propSpec{ID: "C07", Level: "other", Run: runC07,
 		Explain: otherNote + "C07: decided = output layout hZoom/x/y/vZoom/f with zooms copied, x and y wrapped by isomorphic computations, the vertical index exactly f + dv (no clamp, wrap or branch), malformed input yields the empty ID. Exactness of the float Pow/Mod arithmetic is NOT decided.",
-		Canary:  []CanaryExpect{{Rule: "NOWRAP-F", Bad: "canaryBadClampF", Good: "canaryGoodPlainF"}}})
+		Canary: []CanaryExpect{{Rule: "NOWRAP-F", Bad: "canaryBadClampF", Good: "canaryGoodPlainF"},
+			{Rule: "REM-SIGN", Bad: "canaryBadRemWrap", Good: ""}}})
 	register(&propSpec{ID: "C08", Level: "other", Run: runC08,
 		Explain: otherNote + "C08: decided = the constant stencils are exactly the 6 / 8 / 26 offset sets, each offset once, all produced through GetShiftingSpatialID; the N-layer loop nest is the full box minus the origin applied to every input ID; N-layer result de-duplicated; negative layers rejected."})
 }
@@ -99,7 +101,7 @@ func runC07(w *World, r *Report, tier string) {
 	cl := closureOf(w, entries)
 	r.Analysed["closure_functions"] = len(cl)
 	kr := kindRulesFor(w)
-	kr.emit(w, r, []string{"KIND-CALL", "KIND-LAYOUT", "KIND-STORE"}, cl)
+	kr.emit(w, r, []string{"KIND-CALL", "KIND-LAYOUT", "KIND-STORE", "REM-SIGN"}, cl)
 	ruleAxisSym(w, r, "operated.GetShiftingSpatialID")
 	ruleNoWrapF(w, r, lookupByName(w, "operated.GetShiftingSpatialID"))
 	for _, f := range canaryFuncs(w) {
@@ -125,6 +127,7 @@ func runC08(w *World, r *Report, tier string) {
 	}
 	kr := kindRulesFor(w)
 	kr.emit(w, r, []string{"KIND-CALL", "KIND-LAYOUT"}, own)
+	kr.emit(w, r, []string{"REM-SIGN"}, cl)
 	ruleStencil(w, r)
 	if f := lookupByName(w, "operated.GetNspatialIdsAroundVoxcels"); f != nil {
 		ruleDistinct(w, r, f)
